@@ -19,10 +19,18 @@ ASSUMPTIONS = [
 DELAYS: Dict[str, float] = {}
 
 
+GATES: Dict[str, List[str]] = {}  # group -> columns that must be visible in the frame it was handed before it writes (bounded wait)
+
+
 def _delay_hook(cls: Any, data: Any, features: Any) -> None:
     d = DELAYS.get(cls.__name__)
     if d:
         time.sleep(d)
+    need = GATES.get(cls.__name__)
+    if need:
+        t_end = time.time() + 1.5
+        while time.time() < t_end and not all(c in F.columns_of(data) for c in need):
+            time.sleep(0.002)
 
 
 def outcome(rr: S.RunResult, linked: bool) -> Any:
@@ -72,6 +80,53 @@ def alias_suite(ctx: Ctx) -> None:
             elif got != want_tables:
                 fclass = "threading-overlapping-steps-on-shared-cfw" if (mode == "thread" and S.overlap_on_shared_fw(S.export_plan(sess), rr.events)) else None
                 ctx.violation("alias", case, f"result in mode {mode} differs from SYNC", got, want_tables, finding_class=fclass)
+
+
+def inplace_siblings_suite(ctx: Ctx) -> None:
+    """Sibling Pandas groups that all write into the frame they were handed (in place, or by returning only the new column as a
+    Series) are open at the same time in THREADING on one shared frame, their writes serialised by gates (unsynchronised
+    simultaneous inserts into one pandas frame are the known lost-update class); nobody replaces the frame, so no column may
+    get lost and the consumer of all siblings must see the SYNC values."""
+    for _ in range(ctx.budget(10, 150)):
+        uid = F.uniq("")
+        nrows = ctx.rng.randint(1, 3)
+        rc = f"r{uid}"
+        nsib = ctx.rng.randint(2, 4)
+        groups = []
+        sib = []
+        for k in range(nsib):
+            f = f"s{uid}_{k}"
+            sib.append(f)
+            groups.append({"name": f"G{uid}_{k}", "fw": "pd", "style": ctx.rng.choice([True, "series", "series"]),
+                           "features": {f: {"parents": [rc], "expr": [ctx.rng.choice(["add", "mul"]), ["col", rc], ["const", k + 2]]}}})  # fmt: skip
+        expr: Any = ["col", sib[0]]
+        for q in sib[1:]:
+            expr = ["add", expr, ["col", q]]
+        groups.append({"name": f"Z{uid}", "fw": "pd", "features": {f"z{uid}": {"parents": sib, "expr": expr}}})
+        spec = {"roots": [{"name": f"R{uid}", "cols": {rc: [ctx.rng.randint(-5, 9) for _ in range(nrows)]}, "fw": "pd"}], "groups": groups,
+                "request": [{"name": f"z{uid}", "options": {}}] + [{"name": q, "options": {}} for q in sib if ctx.rng.random() < 0.3]}  # fmt: skip
+        sess = S.prepare(spec, S.build_classes(spec, hooks={"before_calc": _delay_hook}))
+        exp = S.export_plan(sess)
+        DELAYS.clear()
+        want = outcome(S.run_session(sess, "sync"), False)
+        for rep in range(2 if ctx.quick else 4):
+            # the siblings enter together (each is handed the shared frame) and write strictly one after the other: a sibling waits
+            # until the columns of the siblings before it (in a seeded order) are visible in the frame it holds
+            order = list(range(nsib))
+            ctx.rng.shuffle(order)
+            GATES.clear()
+            for pos, k in enumerate(order):
+                GATES[groups[k]["name"]] = [sib[j] for j in order[:pos]]
+            rr = S.run_session(sess, "thread")
+            GATES.clear()
+            got = outcome(rr, False)
+            overlap = S.overlap_on_shared_fw(exp, rr.events)
+            case = {"spec": spec, "mode": "thread", "write_order": [sib[k] for k in order]}
+            ctx.case("inplace_siblings", case, overlap, overlap=overlap, outcome=next(iter(got)))
+            if got != want:
+                fclass = "threading-overlapping-steps-on-shared-cfw" if (overlap and not S.overlap_all_in_place(spec, exp, rr.events)) else None
+                ctx.violation("inplace_siblings", case, "THREADING result of sibling in-place Pandas groups (writes serialised) differs from SYNC", got, want, finding_class=fclass)
+    DELAYS.clear()
 
 
 def run(ctx: Ctx) -> None:
@@ -165,6 +220,7 @@ def run(ctx: Ctx) -> None:
     DELAYS.clear()
     S.MERGE_DELAY.clear()
     alias_suite(ctx)
+    inplace_siblings_suite(ctx)
     S.stop_flight_server()
     outs = ctx.lean.batch(lean_reqs)
     for rq, (spec, exp, wantu, rr), o in zip(lean_reqs, metas, outs):
